@@ -180,7 +180,7 @@ def run_job(job):
         n_exec += 1
         rec = {'id': item['id'], 'p': header(sc), 'nf': sc['nf'], 'ev': strip(res.trace), 'sc': sc, 'seed': seed,
                'strategy': strat, 'status': res.status}
-        if res.status != 'ok' or res.exc is not None:
+        if res.status != 'ok' or res.exc is not None or res.thread_errors:
             rec.update(detail=res.detail, waitmap=res.waitmap, exc=repr(res.exc) if res.exc is not None else None,
                        leftover=res.leftover, thread_errors=res.thread_errors)
             hangs.append(rec)
